@@ -129,8 +129,8 @@ CHECKS = {
             'filterCollisionPair (callees mj_filterSphere, getMargin, getGap, mju_sub3, mju_dot3 each under their own contract): a pair listed '
             'explicitly is not generated twice, an explicit pair between two bodies that are not awake is dropped when sleeping is on, dynamic pairs '
             'are dropped exactly on excluding contype/conaffinity masks (no user filter installed), explicit pairs ignore the masks, the bounding '
-            'test uses margin + gap of the right source, kept pairs pass every filter. Contact order: the merge / insertion / sift-down blocks of '
-            'the engine_sort.h macros (as in C22).',
+            'test uses margin + gap of the right source, kept pairs pass every filter. Contact order: contactcompare is the lexicographic order on the (un-swapped) object pair, antisymmetric and transitive '
+            '(lemmas), and the merge / insertion / sift-down blocks of the engine_sort.h macros (as in C22).',
             'Trusted: VC generator, clang, z3/cvc5; geometric filters over the reals; user callback mjcb_contactfilter arbitrary and effect-free. '
             'Not covered: SAP broad phase, BVH mid phase, completeness of the whole pair enumeration; the pass composition of mjSORT is a bounded stand-in.',
             'contracts (+ symmetry client lemmas), z3 QF_BV / LIA / LRA / NRA with quantified geometric soundness clauses; bounded native stand-in (sort composition)'),
